@@ -968,7 +968,8 @@ impl<'a> Parser<'a> {
                 span,
             }))))
         } else {
-            // Property
+            // Property; `x!: T` asserts that the field is assigned elsewhere
+            self.match_token(&TokenKind::Bang);
             let type_annotation = if self.match_token(&TokenKind::Colon) {
                 Some(Box::new(self.parse_type_annotation()?))
             } else {
